@@ -109,6 +109,8 @@ type c03scn struct {
 	lines  []string // op lines of this scenario (replay)
 	// oracle state
 	prevStable   *c03blk
+	prevHead     *c03blk
+	prevTree     map[int]bool
 	committedIDs []int
 }
 
@@ -299,6 +301,36 @@ func (s *c03scn) observe(res string) string {
 	if hb.id != sb.id {
 		c.Count("head-above-stable")
 	}
+	if s.prevHead != nil && hb.id != s.prevHead.id {
+		if hb.parent == s.prevHead.id {
+			c.Count("head:extend")
+		} else if a := up(hb, s.prevHead.height); a != nil && a.id == s.prevHead.id {
+			c.Count("head:jump-same-fork")
+		} else {
+			c.Count("head:switch-fork")
+		}
+	}
+	s.prevHead = hb
+	nowTree := map[int]bool{}
+	for _, e := range tree {
+		nowTree[e.id] = true
+	}
+	if changed {
+		cut := 0
+		for id := range s.prevTree {
+			if !nowTree[id] {
+				if a := up(sb, s.blks[id].height); a == nil || a.id != id {
+					cut++
+				}
+			}
+		}
+		if cut > 0 {
+			c.Count("prune:branches-cut")
+		} else {
+			c.Count("prune:nothing-cut")
+		}
+	}
+	s.prevTree = nowTree
 	// GetBlockByHeight over the stable range: one chain, never replaced
 	var prevHash common.Hash
 	for h := uint32(0); h <= st.Height(); h++ {
@@ -400,7 +432,6 @@ func (s *c03scn) replay() interface{} {
 }
 
 func (s *c03scn) op(line, out string) {
-	s.lines = append(s.lines, line)
 	s.c.Op(line, out)
 }
 
@@ -416,6 +447,7 @@ func (s *c03scn) deliverBlock(b *c03blk, hdr []byte, carried [][]byte) {
 	}
 	line := fmt.Sprintf("blk %d %d %d %d %d %s %d %s", b.id, b.parent, b.height, b.miner, b.rank, s.sigName(b.hash, hdr), v, s.sigNames(b.hash, carried))
 	deputynode.SetSelfNodeKey(detKey("outsider"))
+	s.lines = append(s.lines, line)
 	res := Safe(func() string { return c03errName(s.R.Insert(nb)) })
 	c.Count("blk:" + res)
 	if len(carried) > 0 {
@@ -429,6 +461,15 @@ func (s *c03scn) deliverConfirms(b *c03blk, height uint32, sigs [][]byte) {
 	line := fmt.Sprintf("cf %d %d %s", b.id, height, s.sigNames(b.hash, sigs))
 	deputynode.SetSelfNodeKey(detKey("outsider"))
 	eng := s.R.BC.VerifEngine()
+	switch {
+	case !s.R.BC.HasBlock(b.hash):
+		c.Count("cf-target:unknown")
+	case b.height <= s.R.BC.StableBlock().Height():
+		c.Count("cf-target:committed")
+	default:
+		c.Count("cf-target:unconfirmed")
+	}
+	s.lines = append(s.lines, line)
 	res := Safe(func() string { return c03errName(eng.InsertConfirms(height, b.hash, toSignData(sigs))) })
 	c.Count("cf:" + res)
 	s.op(line, s.observe(res))
@@ -508,7 +549,9 @@ func (s *c03scn) rankAll() {
 
 func (s *c03scn) start() {
 	s.rankAll()
-	s.op(fmt.Sprintf("new %d %d %d", s.dc, s.n, s.blks[0].rank), "ok")
+	line := fmt.Sprintf("new %d %d %d", s.dc, s.n, s.blks[0].rank)
+	s.lines = append(s.lines, line)
+	s.op(line, "ok")
 }
 
 func c03(c *Ctx) {
@@ -632,7 +675,7 @@ func c03scenario(c *Ctx) {
 	}
 	var evs []ev
 	for _, b := range s.blks[1:] {
-		if c.Rnd.Intn(14) == 0 {
+		if c.Rnd.Intn(25) == 0 {
 			c.Count("blk-withheld")
 			continue
 		}
@@ -641,7 +684,7 @@ func c03scenario(c *Ctx) {
 			reps = 2
 		}
 		for r := 0; r < reps; r++ {
-			e := ev{key: float64(b.id) + c.Rnd.NormFloat64()*0.9 + float64(r)*2, b: b, kind: 0, hdr: b.blk.Header.SignData}
+			e := ev{key: float64(b.id) + c.Rnd.NormFloat64()*0.55 + float64(r)*2.5, b: b, kind: 0, hdr: b.blk.Header.SignData}
 			switch x := c.Rnd.Intn(100); {
 			case x < 10:
 				e.hdr = malleate(b.blk.Header.SignData)
@@ -662,10 +705,13 @@ func c03scenario(c *Ctx) {
 			evs = append(evs, e)
 		}
 	}
-	nc := len(s.blks) + c.Rnd.Intn(2*len(s.blks))
+	nc := len(s.blks)/2 + c.Rnd.Intn(2*len(s.blks))
+	// how late confirmations are relative to blocks: late confirmations let forks grow before one of them wins
+	delay := []float64{0, 0, 2, 5, 9}[c.Rnd.Intn(5)]
+	c.Count(fmt.Sprintf("confirm-delay=%v", delay))
 	for i := 0; i < nc; i++ {
 		b := s.blks[1+c.Rnd.Intn(len(s.blks)-1)]
-		e := ev{key: float64(b.id) - 0.5 + c.Rnd.Float64()*4, b: b, kind: 1, cheight: b.height}
+		e := ev{key: float64(b.id) - 0.3 + delay + c.Rnd.Float64()*5, b: b, kind: 1, cheight: b.height}
 		e.sigs = s.genSigs(b, 3)
 		switch c.Rnd.Intn(25) {
 		case 0:
@@ -686,6 +732,22 @@ func c03scenario(c *Ctx) {
 			s.deliverBlock(e.b, e.hdr, e.sigs)
 		} else {
 			s.deliverConfirms(e.b, e.cheight, e.sigs)
+		}
+	}
+	// catch-up phase (what block sync does): blocks the receiver still lacks come again, parents first,
+	// interleaved with more confirmation packets
+	for _, b := range s.blks[1:] {
+		if b.valid && !s.R.BC.HasBlock(b.hash) && c.Rnd.Intn(8) != 0 {
+			c.Count("blk-catch-up")
+			var carried [][]byte
+			if c.Rnd.Intn(4) == 0 {
+				carried = s.genSigs(b, 3)
+			}
+			s.deliverBlock(b, b.blk.Header.SignData, carried)
+		}
+		if c.Rnd.Intn(2) == 0 {
+			t := s.blks[1+c.Rnd.Intn(len(s.blks)-1)]
+			s.deliverConfirms(t, t.height, s.genSigs(t, 2))
 		}
 	}
 }
